@@ -455,7 +455,10 @@ class Parser:
     def _rvalue_expr(self, dest, code_gen):
         if not ExpressionParser(self).expression():
             return False
-        code_gen.pop(dest)
+        if dest is not OpCode.PUSH:
+            # As an operand of an enclosing expression, the value stays where
+            # the expression left it: on the evaluation stack.
+            code_gen.pop(dest)
         return True
 
     def _at_rvalue(self, include_reg=True) -> bool:
